@@ -38,7 +38,7 @@ CONSTANTS Hosts,      \* subject hosts: integers > 1
           Env,        \* kinds of environment events explored: subset of {"fail","status","topo","mode","auth","ctl"}
           Fixed       \* deviations repaired: subset of Deviations
 
-Deviations == {"D1_late_pool", "D3_ctl_after_shutdown", "D4_recon_removed"}
+Deviations == {"D1_late_pool", "D2_discount_pool", "D3_ctl_after_shutdown", "D4_recon_removed"}
 
 Ctl == 1
 AllHosts == Hosts \cup {Ctl}
@@ -161,10 +161,11 @@ UpdAllPools(st) == Fold(LAMBDA x, s : UpdPools(x, s), st, Sessions)
 (* get_and_set_reconnection_handler(None) [+ cancel]: the entries of the host's handler follow it *)
 DetachT(t, h, cancel) == IF t.k = "Recon" /\ t.h = h /\ t.kind = "att"
                          THEN [t EXCEPT !.kind = "det", !.f1 = (@ \/ cancel)] ELSE t
+HasAtt(b, h) == \E t \in DOMAIN b : t.k = "Recon" /\ t.h = h /\ t.kind = "att"
 Detach(st, h, cancel) ==
     [st EXCEPT !.recon[h] = "none",
-               !.sched = BagMap(@, LAMBDA t : DetachT(t, h, cancel)),
-               !.exec = BagMap(@, LAMBDA t : DetachT(t, h, cancel))]
+               !.sched = IF HasAtt(@, h) THEN BagMap(@, LAMBDA t : DetachT(t, h, cancel)) ELSE @,
+               !.exec = IF HasAtt(@, h) THEN BagMap(@, LAMBDA t : DetachT(t, h, cancel)) ELSE @]
 
 (* Cluster._start_reconnector *)
 StartRecon(st, h, add) ==
@@ -221,7 +222,11 @@ DoRefresh(st) ==
     LET adds == {h \in peers : ~st.known[h] /\ ~st.removed[h]}
         s1 == Fold(LAMBDA x, h : OnAddE([x EXCEPT !.known[h] = TRUE, !.up[h] = "N"], h), st, adds)
         rems == {h \in Hosts : s1.known[h] /\ h \notin peers}
-    IN Fold(LAMBDA x, h : OnRemoveE(x, h), s1, rems)
+        \* ControlConnection.on_remove refreshes again through ControlConnection._connection: nothing is left to do when
+        \* that is the connection in use; while a reconnect is still installing its connection it is the defunct one
+        \* and the failure is signalled (_signal_error -> on_down of the control host)
+        Nested(x) == IF x.ctl = "broken" /\ ~ClusterShut THEN Submit(x, TOnDown(Ctl, FALSE, FALSE)) ELSE x
+    IN Fold(LAMBDA x, h : Nested(OnRemoveE(x, h)), s1, rems)
 (* ControlConnection.refresh_node_list_and_token_map: a defunct connection makes it signal the control host down *)
 Refresh(st) ==
     CASE st.ctl = "open"   -> DoRefresh(st)
@@ -270,7 +275,8 @@ RunAddPool(st, t) ==
 RunOnDown(st, t) ==
     LET h == t.h IN
     IF ClusterShut \/ h = Ctl THEN st                     \* the control host keeps its pools: always discounted
-    ELSE IF h \notin Ignored /\ \E s \in Sessions : st.pools[s][h] = "open" THEN st     \* _discount_down_events
+    ELSE IF h \notin Ignored /\ \E s \in Sessions : st.pools[s][h] = "open"         \* _discount_down_events: the host stays up
+         THEN (IF "D2_discount_pool" \in Fixed THEN UpdAllPools(st) ELSE st)          \* repaired: sessions that lost their pool get a new one
     ELSE LET wasUp == st.up[h] = "T"
              s1 == SetDown(st, h)
          IN IF (~wasUp /\ ~t.f2) \/ st.recon[h] # "none" THEN s1
@@ -460,9 +466,11 @@ Next ==
 Spec == Init /\ [][Next]_vars
 
 -----------------------------------------------------------------------------
-NOpen == (IF ctl = "open" THEN 1 ELSE 0) + (IF ctlPend THEN 1 ELSE 0) + leaked
-         + Cardinality({<<s, h>> \in Sessions \X AllHosts : pools[s][h] = "open"})
-         + BagCount(exec, LAMBDA t : t.k = "PoolShut" /\ t.f1)
+NOpenOf(c, cp, lk, pl, ex) ==
+    (IF c = "open" THEN 1 ELSE 0) + (IF cp THEN 1 ELSE 0) + lk
+    + Cardinality({<<s, h>> \in Sessions \X AllHosts : pl[s][h] = "open"})
+    + BagCount(ex, LAMBDA t : t.k = "PoolShut" /\ t.f1)
+NOpen == NOpenOf(ctl, ctlPend, leaked, pools, exec)       \* connections open right now
 
 TypeOK ==
     /\ \A h \in Hosts : up[h] \in {"T", "F", "N"} /\ recon[h] \in {"none", "live", "canc"}
